@@ -195,6 +195,13 @@ def expectCh (c : Char) : List Char → Option (List Char)
   | x :: xs => if x == c then some xs else none
   | [] => none
 
+/-- `minDatetime = time.Date(-292275055, 5, 17, 16, 47, 04, 192ms)` as written in types/datetime.go.
+    (The true instant of MinInt64 ms is one day earlier, 05-16: the first day of the range prints
+    but does not parse — C12 finding.) -/
+def minDatetimeMs : Int := daysFromCivil (-292275055) 5 17 * 86400000 + 16 * 3600000 + 47 * 60000 + 4 * 1000 + 192
+/-- `maxDatetime = time.Date(292278994, 8, 17, 7, 12, 55, 807ms)` -/
+def maxDatetimeMs : Int := daysFromCivil 292278994 8 17 * 86400000 + 7 * 3600000 + 12 * 60000 + 55 * 1000 + 807
+
 /-- `types.ParseDatetime`; result in milliseconds since the epoch -/
 def parseDatetimeL (cs : List Char) : Except Err Int :=
   let E : Except Err Int := .error .extDatetime
@@ -273,7 +280,8 @@ def parseDatetimeL (cs : List Char) : Except Err Int :=
   | some (offset, s) =>
   if !s.isEmpty then E else
   let t : Int := dayMs + (hour : Int) * 3600000 + (minute : Int) * 60000 + (second : Int) * 1000 + (milli : Int) - offset
-  if t < minI64 || t > maxI64 then E else .ok t
+  -- Go: `t.Before(minDatetime) || t.After(maxDatetime)` with the two package-level constants
+  if t < minDatetimeMs || t > maxDatetimeMs then E else .ok t
 
 def parseDatetime (s : String) : Except Err Int := parseDatetimeL s.toList
 
